@@ -726,12 +726,12 @@ func (g *gen) program(profile string, seed int64) *Program {
 		}
 	}
 	if p.Cfg.Cloner >= 2 {
-		// the codec / clone-func / copy-func adapters create destinations by
-		// reflection (a zero dynamic.Message has no descriptor) and copy
-		// between identical Go types only: dynamic messages are used with the
-		// default and the ProtoCloner configuration
+		// the codec / clone-func / copy-func adapters copy between identical
+		// Go types only: with them both sides use the same representation
 		for _, r := range p.RPCs {
-			r.DynC, r.DynH = false, false
+			if r.DynC != r.DynH {
+				r.DynC, r.DynH = false, false
+			}
 		}
 	}
 	if p.Cfg.SendBuf > 0 && p.Cfg.SendBuf < 4096 {
